@@ -546,7 +546,7 @@ theorem CtxF.after {Γ : List LCtx} {sc : Nat} {s s' : St} {rs rs' : Ref.St} (h 
     by rw [hfr.loops γ.id h1]; exact h4, by rw [hfr.linear]; exact h5, Nat.lt_of_lt_of_le h6 hfr.scLen,
     ⟨k, hch.congr hext.1 hflags, ?_⟩, h8, ⟨X ++ G, by rw [hX, hG, List.append_assoc], (hgood γ hγ).append hGg⟩⟩
   rw [hfr.curfunc]
-  exact hfc.transfer s.scopes.length hfr.flags hext.1 hk (fun e he => Nat.lt_trans (hch.k_lt e he) h6)
+  exact hfc.transfer s.scopes.length hfr.flags hext.1 hk (Nat.le_refl _) hfr.scLen (fun e he => Nat.lt_trans (hch.k_lt e he) h6)
     (takeToBoundary_chain hch hflags)
 
 /-- `Frame` without the linear stack (a `break`/`continue` pops scopes) -/
@@ -598,6 +598,7 @@ theorem RelF.relin {m : Nat → Nat} {s s' : St} {rs : Ref.St} {env env' : Nat} 
     h.lz.mono hk (by rw [hsc]; exact Nat.le_refl _) (fun i _ => by rw [hfl]) (RExt.refl rs) (fun _ _ => rfl) hlz rfl⟩
   rw [hcur]
   exact hfc.transfer (s := s) (s' := s') rs.frames.length (fun i _ => by rw [hfl]) (fun i fr hf => ⟨fr, hf, rfl⟩) hk
+    (Nat.le_of_eq h.len) (by rw [hsc]; exact Nat.le_refl _)
     (fun e he => Nat.lt_trans (hc.k_lt e he) hc.lt) (by rw [hfl])
 
 /-! ## The simulation statement with non-local exits -/
@@ -804,7 +805,7 @@ theorem CtxF.after_nl {Γ : List LCtx} {sc sc' : Nat} {s s' : St} {rs rs' : Ref.
     Nat.lt_of_lt_of_le h6 hfr.scLen,
     ⟨k, hch.congr hext.1 hflags, ?_⟩, h8, ⟨X ++ G, by rw [hX, hG, List.append_assoc], (hgood γ hγ).append hGg⟩⟩
   rw [hfr.curfunc]
-  exact hfc.transfer s.scopes.length hfr.flags hext.1 hk (fun e he => Nat.lt_trans (hch.k_lt e he) h6)
+  exact hfc.transfer s.scopes.length hfr.flags hext.1 hk (Nat.le_refl _) hfr.scLen (fun e he => Nat.lt_trans (hch.k_lt e he) h6)
     (takeToBoundary_chain hch hflags)
 
 theorem CtxF.pushScope {Γ : List LCtx} {sc : Nat} {s : St} {rs : Ref.St} {env : Nat} (h : CtxF Γ sc s rs) :
